@@ -8,6 +8,12 @@ import (
 	"sync"
 )
 
+// LastDumps keeps the last accepted snapshots (debugging aid, VERIF_DEBUG_DUMP only).
+var LastDumps []string
+
+// KeepDumps makes SettleStacks keep the snapshots it accepted (for failure reports).
+var KeepDumps bool
+
 var stackBufPool = sync.Pool{New: func() any { b := make([]byte, 1<<20); return &b }}
 
 // Parked describes the goroutines of the caller's bubble at a settled point.
@@ -37,8 +43,12 @@ func SettleStacks() (Parked, error) {
 		n := runtime.Stack(*bp, true)
 		p, ok := parseSettled((*bp)[:n])
 		if ok {
-			if os.Getenv("VERIF_DEBUG_DUMP") != "" {
+			if KeepDumps || os.Getenv("VERIF_DEBUG_DUMP") != "" {
 				p.Dump = string((*bp)[:n])
+				LastDumps = append(LastDumps, p.Dump)
+				if len(LastDumps) > 3 {
+					LastDumps = LastDumps[1:]
+				}
 			}
 			return p, nil
 		}
@@ -91,11 +101,11 @@ func parseSettled(dump []byte) (Parked, bool) {
 	}
 	for _, x := range gs {
 		if x.bubble == nil {
-			// A bubble goroutine doing a GC assist is temporarily detached from its bubble by the
-			// runtime and shows up untagged: any untagged goroutine that is or may become active
-			// means "not settled" (test-framework goroutines parked on channels/sleep are fine).
-			if bytes.HasPrefix(x.state, []byte("GC assist")) || bytes.Equal(x.state, []byte("runnable")) ||
-				bytes.Equal(x.state, []byte("running")) || bytes.Equal(x.state, []byte("preempted")) {
+			// A bubble goroutine inside the allocator's GC-assist path is temporarily detached from its
+			// bubble by the runtime and shows up untagged, in whatever state that path puts it (GC assist
+			// wait, semacquire, runnable, ...). So an untagged goroutine only counts as "not mine" when
+			// it is in one of the parked states of the test framework / runtime service goroutines.
+			if !idleUntagged(x.state) {
 				return p, false
 			}
 			continue
@@ -113,4 +123,19 @@ func parseSettled(dump []byte) (Parked, bool) {
 		}
 	}
 	return p, true
+}
+
+var idleUntaggedStates = [][]byte{
+	[]byte("chan receive"), []byte("chan send"), []byte("select"), []byte("sleep"), []byte("IO wait"), []byte("syscall"),
+	[]byte("GC worker (idle)"), []byte("GC sweep wait"), []byte("GC scavenge wait"), []byte("finalizer wait"), []byte("cleanup wait"),
+	[]byte("force gc (idle)"), []byte("trace reader (blocked)"), []byte("sync.WaitGroup.Wait"), []byte("sync.Cond.Wait"),
+}
+
+func idleUntagged(state []byte) bool {
+	for _, s := range idleUntaggedStates {
+		if bytes.Equal(state, s) {
+			return true
+		}
+	}
+	return false
 }
